@@ -406,16 +406,18 @@ Fixpoint strides (mult : Z) (nx : list Z) : list Z :=
 
 Record hrconf := mkHrConf { h_lower : option tok; h_upper : option tok; h_width : option tok }.
 
-(* repaired: the three checks return before any size is computed; the bin count must be a positive int;
-   the three vectors are resized inside try/catch *)
+(* repaired: the checks return before any size is computed; the bin count must be below INT_MAX (tested on the
+   double, before the cast) and at least 1; the three vectors are resized inside try/catch *)
 Definition histrestr_init (host_bytes : Z) (c : hrconf) : initres Z :=
   let '(lo, e1) := getQ (parse_real (h_lower c)) 0 0 in
   let '(up, e2) := getQ (parse_real (h_upper c)) 0 0 in
   let '(w, e3) := getQ (parse_real (h_width c)) 0 0 in
-  if Qle_bool w 0 || Qle_bool up lo then mkRes 0 true []
+  if Qle_bool w 0 then mkRes 0 true []
+  else if Qle_bool up lo then mkRes 0 true []
+  else if Qle_bool (int_max # 1) ((up - lo) / w) then mkRes 0 true []
   else
     let n := cast_int ((up - lo) / w) in
-    if n <=? 0 then mkRes n true []
+    if n <? 1 then mkRes n true []
     else mkRes n (e1 || e2 || e3 || negb (n * 8 * 3 <=? host_bytes))
                [mkUse "histogramRestraint init: p.resize(nbins)" (0 <? n)].
 
